@@ -279,7 +279,8 @@ func (rb *rdBroker) answer(q FetchReq) (FetchResp, time.Duration) {
 			return FetchResp{Err: int16(c), Hwm: sc.Hwm, Cut: -1}, pause
 		}
 	}
-	return FetchResp{Hwm: sc.Hwm, Set: serve(rb.items, o, budget), Cut: -1}, pause
+	lso := o // an open transaction begins where the reader stands: last stable offset = fetch offset < high watermark
+	return FetchResp{Hwm: sc.Hwm, Set: serve(rb.items, o, budget), Cut: -1, LSO: &lso}, pause
 }
 
 // settle waits until the background reader goroutine is parked: idling at hwm, or silent for rdQuiet (blocked on
